@@ -83,6 +83,12 @@ def call_object(n):
 import os as _os
 RENDER_EXPAND = _os.environ.get("MPSA_RENDER_EXPAND", "1") in ("1", "all")
 RENDER_EXPAND_ALL = _os.environ.get("MPSA_RENDER_EXPAND", "1") == "all"
+RENDER_CANON = _os.environ.get("MPSA_RENDER_CANON", "1") == "1"
+_CANON_DEFAULT = RENDER_CANON
+# rules whose tables were frozen against the source orientation of comparisons (`b > a`, `0 == x`); every other rule sees
+# relational operators in canonical form (`a < b`, operands of == / != in lexicographic order)
+RAW_CANON_RULES = {"C05.S1", "C07.E2", "C07.G1", "C01.D1", "C01.K1", "C01.L1", "C01.M1", "C01.P2", "C01.X1", "C01.K2", "C01.H1", "C01.H2", "C02.G2", "C02.R0", "C03.W2", "C04.E1", "C05.G1",
+                   "C06.B1", "C06.G1", "C06.R1", "C09.M1", "C09.P4", "C12.F1", "C12.R1", "C13.G1", "C14.B2", "C14.G1", "C19.G1", "C19.S1"}
 _RENDER_DEFAULT = RENDER_EXPAND
 # rules whose tables were frozen against the unexpanded text (locals by name); everything else sees stable locals expanded
 RAW_RENDER_RULES = {"C01.X1", "C06.G1", "C06.R1", "C01.H2", "C01.K1", "C01.K2", "C01.L1", "C01.P2", "C04.T1", "C05.T2", "C06.B1", "C07.H1",
@@ -91,8 +97,9 @@ RAW_RENDER_RULES = {"C01.X1", "C06.G1", "C06.R1", "C01.H2", "C01.K1", "C01.K2", 
 
 def set_rule(rid):
     """called when a rule object is created: selects the rendering mode of the code that follows"""
-    global RENDER_EXPAND
+    global RENDER_EXPAND, RENDER_CANON
     RENDER_EXPAND = _RENDER_DEFAULT and rid not in RAW_RENDER_RULES
+    RENDER_CANON = _CANON_DEFAULT and rid not in RAW_CANON_RULES
 
 
 def render(n, depth=0):
@@ -127,6 +134,14 @@ def render(n, depth=0):
     if k == "StringLiteral":
         return '"%s"' % str(n.get("v", "")).replace("\n", "\\n")
     if k in ("BinaryOperator", "CompoundAssignOperator") and len(ks) == 2:
+        if RENDER_CANON and k == "BinaryOperator" and n.get("op") in (">", ">=", "==", "!="):
+            a_, b_ = r(ks[0]), r(ks[1])
+            if n["op"] == ">":
+                return "%s < %s" % (b_, a_)
+            if n["op"] == ">=":
+                return "%s <= %s" % (b_, a_)
+            x_, y_ = sorted([a_, b_])
+            return "%s %s %s" % (x_, n["op"], y_)
         return "%s %s %s" % (r(ks[0]), n.get("op"), r(ks[1]))
     if k == "UnaryOperator" and ks:
         return (r(ks[0]) + n.get("op", "")) if n.get("postfix") else (n.get("op", "") + r(ks[0]))
